@@ -453,6 +453,12 @@ pub fn run_check(prop: &dyn Property, tier: Tier) -> i32 {
     }
 
     let wall = t0.elapsed().as_secs_f64();
+    {
+        let n = crate::world::CLOCK_FAULTS.load(Ordering::Relaxed);
+        if n > 0 {
+            faults.insert("monorail_process_started_with_wrong_or_jumping_wall_clock".to_string(), n);
+        }
+    }
     let mut coverage = json!({
         "evaluations": evaluations,
         "distinct_nontrivial": distinct.len(),
